@@ -6,9 +6,10 @@ false)` (comment.rs:243-395) under `normalize_comments = false` and `wrap_commen
 Under these two settings neither `block_style` nor `shape.width` is read; the result depends on `orig`,
 `shape.indent` and `hard_tabs` / `tab_spaces` only.
 
-Modelled: `comment_style`, `is_custom_comment`, `custom_opener`, `consume_same_line_comments`, the end of
-the first block comment (`find_comment_end`, through the `CharClasses` model), `light_rewrite_comment`, and
-the recursion on the rest of the comment.  Offsets are counted in characters (equal to the byte offsets of
+Modelled: `comment_style`, `is_custom_comment`, `custom_opener`, `consume_same_line_comments`, the search
+for the line that closes a block comment (the closer-counting loop), `light_rewrite_comment`, and the
+recursion on the rest of the comment (`find_comment_end`, through the `CharClasses` model, is defined here
+for `get_comment_end`).  Offsets are counted in characters (equal to the byte offsets of
 the code on ASCII text, to which the correspondence check restricts itself).
 Also modelled: `trim_left_preserve_layout` (utils.rs), which rewrites a block comment with a "bare line"
 (a line that starts with neither `*`, `//` nor `/*`), over the `LineClasses` model; `none` is then the
@@ -116,17 +117,34 @@ def isBareLine (raw : List Char) : Bool :=
   !startsWith ['*'] trimmedLine && !startsWith "//".toList trimmedLine &&
     !startsWith "/*".toList trimmedLine
 
-/-- The loop over the lines of a block comment in `identify_comment`: the group is the first block
-comment up to the end of the line it ends on.  `offset` is `closing_symbol_offset`.  Returns
-(has bare lines, consumed raw lines). -/
-def blockGroup (firstCommentEnd : Nat) : List (List Char) → Nat → Bool → Bool × List (List Char)
-  | [], _, hbl => (hbl, [])
-  | raw :: rest, offset, hbl =>
-    let offset := offset + raw.length
+/-- `orig.matches(pat).count()`: non-overlapping, left to right (`fuel` bounds the scan). -/
+def countMatches (pat : List Char) (fuel : Nat) (s : List Char) : Nat :=
+  match fuel with
+  | 0 => 0
+  | fuel + 1 =>
+    match s with
+    | [] => 0
+    | c :: cs =>
+      if pat.isPrefixOf (c :: cs) && !pat.isEmpty then 1 + countMatches pat fuel ((c :: cs).drop pat.length)
+      else countMatches pat fuel cs
+
+/-- The loop over the lines of a block comment in `identify_comment`, comment.rs:320-342: the group ends
+with the line on which the last of the `count` closers `*/` of the comment ends a line (the opener is
+removed from the first line before the test).  Returns (has bare lines, consumed raw lines).
+`count - 1` on `count = 0` cannot happen (every line that ends with `*/` holds its own match). -/
+def blockGroup (openerLen : Nat) : List (List Char) → Bool → Nat → Bool → Bool × List (List Char)
+  | [], _, _, hbl => (hbl, [])
+  | raw :: rest, first, count, hbl =>
     let hbl := hbl || isBareLine raw
-    if offset ≥ firstCommentEnd then (hbl, [raw])
+    let trimmedLine := trimStart (stripLineEnding raw)
+    let trimmedLine := if first then trimmedLine.drop openerLen else trimmedLine
+    if endsWith "*/".toList trimmedLine then
+      if count - 1 = 0 then (hbl, [raw])
+      else
+        let (h, got) := blockGroup openerLen rest false (count - 1) hbl
+        (h, raw :: got)
     else
-      let (h, got) := blockGroup firstCommentEnd rest offset hbl
+      let (h, got) := blockGroup openerLen rest false count hbl
       (h, raw :: got)
 
 /-- One line of `light_rewrite_comment`, comment.rs:1070-1086 (`is_doc_comment = false`). -/
@@ -206,7 +224,8 @@ def firstGroupOf (orig : List Char) : Bool × List (List Char) :=
   | .doubleSlash | .tripleSlash | .doc =>
     consumeSameLineComments style (trimStart style.lineStart) raws
   | .custom opener => consumeSameLineComments style (trimEnd opener) raws
-  | _ => blockGroup ((findCommentEnd orig).getD orig.length) raws 0 false
+  | _ =>
+    blockGroup (trimEnd style.opener).length raws true (countMatches "*/".toList orig.length orig) false
 
 /-- `identify_comment` (comment.rs:252-395) under `normalize_comments = false`, `wrap_comments = false`,
 `is_doc_comment = false`.  `indentStr` is `shape.indent.to_string(config)`; `bare` is
